@@ -1,7 +1,9 @@
 /-
-  Executable stand-in for Reed-Solomon block decoding over GF(256)/0x11D, generator base 0
-  (`reedsolomon.NewReedSolomonDecoder(GenericGF_QR_CODE_FIELD_256).Decode`), used ONLY by the driver
-  so that whole-symbol decoding can be compared with the Go decoder, also under faults.
+  NO LONGER USED BY ANY DRIVER OR THEOREM (kept as an independent second implementation): since the
+  composition work package the drivers of C01/C05/C15 plug the C04 model `Gzx.RS.decode qrCode256` into the
+  decoder model — the decoder the theorems `qr_roundtrip_*` / `qr_tolerates_block_errors` are about.
+  Former role: executable stand-in for Reed-Solomon block decoding over GF(256)/0x11D, generator base 0
+  (`reedsolomon.NewReedSolomonDecoder(GenericGF_QR_CODE_FIELD_256).Decode`).
   The decoder model (Model/QRDecoder.lean) takes RS decoding as a parameter and no theorem of
   C01/C05/C15 is about this file; the verified RS model is `Gzx.RS` of property C04.
   Same algorithm as the Go code (syndromes, Euclid until deg r < R/2, Chien search, Forney), same
